@@ -116,12 +116,12 @@ class error_997_visitor(error_visitor.error_visitor):
         err_codes = [err[0] for err in err_isa.errors]
         for elem in err_isa.elements:
             for (err_cde, err_str, bad_value) in elem.errors:
-                # Ugly
+                # (the node of the interchange, group or set holds the elements of header and trailer)
                 # an element beyond those the header or trailer defines has no code of its own
-                if 'ISA' in err_str:
+                if elem.seg_id == 'ISA':
                     if elem.ele_pos in isa_ele_err_map:
                         err_codes.append(isa_ele_err_map[elem.ele_pos])
-                elif 'IEA' in err_str:
+                elif elem.seg_id == 'IEA':
                     if elem.ele_pos in iea_ele_err_map:
                         err_codes.append(iea_ele_err_map[elem.ele_pos])
 
@@ -221,14 +221,14 @@ class error_997_visitor(error_visitor.error_visitor):
         err_codes = [err[0] for err in err_gs.errors]
         for elem in err_gs.elements:
             for (err_cde, err_str, bad_value) in elem.errors:
-                # Ugly
-                if 'GS' in err_str:
+                # (the node of the interchange, group or set holds the elements of header and trailer)
+                if elem.seg_id == 'GS':
                     #if elem.ele_pos in gs_ele_err_map.keys():
                     if elem.ele_pos in gs_ele_err_map:
                         err_codes.append(gs_ele_err_map[elem.ele_pos])
                     else:
                         err_codes.append('1')
-                elif 'GE' in err_str:
+                elif elem.seg_id == 'GE':
                     if elem.ele_pos in ge_ele_err_map:
                         err_codes.append(ge_ele_err_map[elem.ele_pos])
                     else:
@@ -314,12 +314,12 @@ class error_997_visitor(error_visitor.error_visitor):
             err_codes.append('5')
         for elem in err_st.elements:
             for (err_cde, err_str, bad_value) in elem.errors:
-                # Ugly
+                # (the node of the interchange, group or set holds the elements of header and trailer)
                 # only the identifier and the control number have a code of their own
-                if 'ST' in err_str:
+                if elem.seg_id == 'ST':
                     if elem.ele_pos in st_ele_err_map:
                         err_codes.append(st_ele_err_map[elem.ele_pos])
-                elif 'SE' in err_str:
+                elif elem.seg_id == 'SE':
                     if elem.ele_pos in se_ele_err_map:
                         err_codes.append(se_ele_err_map[elem.ele_pos])
         # return unique codes
